@@ -37,6 +37,27 @@ def _one(args):
                 outcome={0: "silent", 1: "reported", 2: "analysis-error"}.get(code, "?"), first_report=(first[0][:200] if first else ""))
 
 
+def _whole_package(prop, root):
+    """Behaviour-preserving transformations of the whole package: every local renamed; ast round trip."""
+    import shutil
+    from ..run import run_property
+    from .refactors import TRANSFORMS, make_tree
+    out = []
+    for name, tf in TRANSFORMS.items():
+        tmp = make_tree(root, tf)
+        try:
+            buf = io.StringIO()
+            with contextlib.redirect_stdout(buf):
+                code = run_property(prop, "quick", tmp, 0, write=False)
+            first = [l.strip() for l in buf.getvalue().splitlines() if l.startswith("  ")][:1]
+            out.append(dict(prop=prop, kind="refactor", file="fairlearn/**", note=f"whole package: {name}", code=code,
+                            outcome={0: "silent", 1: "reported", 2: "analysis-error"}.get(code, "?"),
+                            first_report=(first[0][:200] if first else "")))
+        finally:
+            shutil.rmtree(tmp, ignore_errors=True)
+    return out
+
+
 def run_for(prop: str, root: str, seed: int, evidence_dir=None):
     t0 = time.time()
     items = [(p, k, rel, old, new, note, root) for (p, k, rel, old, new, note) in CORPUS if p == prop]
@@ -45,6 +66,7 @@ def run_for(prop: str, root: str, seed: int, evidence_dir=None):
     n = min(16, os.cpu_count() or 4, len(items))
     with mp.get_context("fork").Pool(n) as pool:
         res = pool.map(_one, items)
+    res.extend(_whole_package(prop, root))
     mutants = [r for r in res if r["kind"] == "mutant" and r["outcome"] != "skipped"]
     refs = [r for r in res if r["kind"] == "refactor" and r["outcome"] != "skipped"]
     killed = [r for r in mutants if r["outcome"] == "reported"]
